@@ -435,3 +435,30 @@ Proof.
     + intros [F [HF He]]. exists F, V. split; auto.
       apply (defines_entry G defs cs a bodies V Hc Hm Hin Ha). auto.
 Qed.
+
+(* a sufficient condition tau*-theories meet: every formula is a constraint or a definition whose
+   head variables are a prefix of one global list (choose_fresh_global_variables) *)
+Lemma completable_uniform_heads (G : theory) (globals : list var) :
+  (forall f, In f G -> constraint_formula f \/
+                       exists F p V, definition_of f F p V /\ V = firstn (List.length V) globals) ->
+  completable G.
+Proof.
+  intros H. split.
+  - intros f Hf. destruct (H f Hf) as [Hk|[F [p [V [HD _]]]]]; eauto.
+  - intros f1 f2 F1 F2 p V1 V2 Hf1 Hf2 D1 D2 Hl.
+    destruct (H f1 Hf1) as [Hk|[F1' [p1 [V1' [HD1 E1]]]]].
+    { exfalso. destruct D1 as [_ [H1 _]], Hk as [_ [F' H2]]. unfold implication in *.
+      destruct H1 as [X|X], H2 as [Y|Y]; rewrite X in Y; discriminate. }
+    destruct (H f2 Hf2) as [Hk|[F2' [p2 [V2' [HD2 E2]]]]].
+    { exfalso. destruct D2 as [_ [H1 _]], Hk as [_ [F' H2]]. unfold implication in *.
+      destruct H1 as [X|X], H2 as [Y|Y]; rewrite X in Y; discriminate. }
+    assert (V1' = V1).
+    { destruct D1 as [_ [H1 _]], HD1 as [_ [H2 _]]. unfold implication in *.
+      destruct H1 as [X|X], H2 as [Y|Y]; rewrite X in Y; try discriminate; injection Y; intros;
+        apply map_var_to_gterm_inj; congruence. }
+    assert (V2' = V2).
+    { destruct D2 as [_ [H1 _]], HD2 as [_ [H2 _]]. unfold implication in *.
+      destruct H1 as [X|X], H2 as [Y|Y]; rewrite X in Y; try discriminate; injection Y; intros;
+        apply map_var_to_gterm_inj; congruence. }
+    subst. rewrite E1, E2, Hl. reflexivity.
+Qed.
